@@ -339,4 +339,64 @@ example :
       = observe (jFinish cfg) (jFeed cfg jInit [34, 97, 92, 110, 34, 32, 49, 50, 32, 116, 114, 117, 101, 10]) :=
   json_chunking_independent _ _ _ rfl
 
+/-! ## CSV `RecordDecoder` / `Decoder` -/
+
+/-- the input does not begin with a UTF-8 byte order mark -/
+def NoBom (xs : Bytes) : Prop := ¬ (xs.length ≥ 3 ∧ xs.take 3 = csvBom)
+
+/-- **Refinement (CSV).** One round of csv-core's `read_record_dfa` as driven by
+`RecordDecoder::decode` — `scan_and_copy` of a run of ordinary bytes inside a field, otherwise
+one DFA step, with record validation / skipping / batching — equals the byte-at-a-time machine
+`csvStep`, for every decoder state that has already read something, and for a fresh decoder
+whenever the chunk does not start with a complete UTF-8 BOM. -/
+theorem csv_refinement (cfg : CsvCfg) (s : CsvState) (chunk : Bytes)
+    (h : s.hasRead = true ∨ NoBom chunk) :
+    csvFeed cfg s chunk = runBytes (csvStep cfg) s chunk :=
+  csvFeed_eq_runBytes cfg s chunk (Or.inr h)
+
+/-- **Chunking independence (CSV), for inputs without a leading BOM.** Every partition of the
+input gives the same batches (same rows, same field boundaries and contents, same order), the
+same final state and — through `csvFinish` (EOF transition: an unterminated last record is
+completed; last `flush`) — the same last batch and ok/error verdict as the single-chunk run. -/
+theorem csv_chunking_independent (cfg : CsvCfg) (toSkip : Nat) (cs : List Bytes) (xs : Bytes)
+    (hp : IsPartition cs xs) (hb : NoBom xs) :
+    observe (csvFinish cfg) (runChunks (csvFeed cfg) (csvInit toSkip) cs) =
+      observe (csvFinish cfg) (csvFeed cfg (csvInit toSkip) xs) := by
+  have h1 := csv_runChunks cfg (csvInit toSkip) cs (by rw [hp]; exact Or.inr (Or.inr hb))
+  rw [h1, hp, csv_refinement cfg _ xs (Or.inr hb)]
+
+/-- …and from any state that has already consumed input (e.g. after the header), with no
+condition on the bytes. -/
+theorem csv_chunking_independent_state (cfg : CsvCfg) (s : CsvState) (cs : List Bytes)
+    (h : s.hasRead = true) :
+    runChunks (csvFeed cfg) s cs = csvFeed cfg s cs.flatten := by
+  rw [csv_runChunks cfg s cs (Or.inr (Or.inl h)), csv_refinement cfg s _ (Or.inl h)]
+
+/-- **The BOM exception is real (the model reproduces the defect found in the code).**
+csv-core strips a UTF-8 BOM only when its *first* input buffer holds all three BOM bytes;
+arrow-csv forwards chunks as they arrive.  For the input `EF BB BF 'a' '\n'` the single-chunk
+run yields the row `["a"]`, the chunking `[EF] [BB BF 'a' '\n']` yields `["\u{feff}a"]`:
+chunking independence fails exactly there (`finding:csv-bom-split`). -/
+theorem csv_bom_chunk_dependent :
+    let cfg : CsvCfg := ⟨1, 4⟩
+    observe (csvFinish cfg) (runChunks (csvFeed cfg) (csvInit 0) [[0xEF, 0xBB, 0xBF, 97, 10]]) =
+        ([], [[[[97]]]], false) ∧
+    observe (csvFinish cfg) (runChunks (csvFeed cfg) (csvInit 0) [[0xEF], [0xBB, 0xBF, 97, 10]]) =
+        ([], [[[[0xEF, 0xBB, 0xBF, 97]]]], false) := by
+  constructor <;> simp [observe, runChunks, csvFeed, bulkLoop, csvIter, csvInit, csvBom, csvStep, csvStartRecord,
+    csvStartField, csvEndRecord, csvFlush, csvFinish, isTerm, csvPlain, termState, rowsValid, utf8Valid, utf8One]
+
+/-- Errors are sticky (CSV): after a field-count or UTF-8 error nothing more is emitted. -/
+theorem csv_error_sticky (cfg : CsvCfg) (s : CsvState) (h : s.err = true) (cs : List Bytes) :
+    runChunks (csvFeed cfg) s cs = (s, []) := by
+  rw [csv_runChunks cfg s cs (Or.inl h)]; exact csv_err_absorb cfg s h _
+
+/-- non-trivial instance: `a,"b` | `""c"` CR | LF `d,e` cut inside the quoted field, inside the
+doubled quote and between CR and LF -/
+example :
+    let cfg : CsvCfg := ⟨2, 1⟩
+    observe (csvFinish cfg) (runChunks (csvFeed cfg) (csvInit 0) [[97, 44, 34, 98, 34], [34, 99, 34, 13], [], [10, 100, 44, 101]])
+      = observe (csvFinish cfg) (csvFeed cfg (csvInit 0) [97, 44, 34, 98, 34, 34, 99, 34, 13, 10, 100, 44, 101]) :=
+  csv_chunking_independent _ _ _ _ rfl (by simp [NoBom, csvBom])
+
 end ArrowModel.C14
